@@ -245,6 +245,19 @@ def run(ctx):
     rng = ctx.rng
     ctx.require("oracle.attr_model", 2000)
     ctx.require("oracle.consolidate", 300)
+    # 0. sizes ordinary elements never reach: several hundred attributes, from four dicts and keywords, with collisions
+    if ctx.shard == 0:
+        for j in range(3):
+            names_ = ["k%d_%s" % (k, "x_" if k % 9 == 0 else "y") for k in range(150 + 60 * j)]
+            dicts_ = [{"d": [[n_, {"t": "str", "s": "d%d.%d" % (q, k)}] for k, n_ in enumerate(names_[q * 30: q * 30 + 80])], "as": ["dict", "ordereddict", "userdictlike", "dict"][q]} for q in range(4)]
+            kw_ = [[n_, {"t": "num", "v": k} if k % 2 else {"t": "true"}] for k, n_ in enumerate(names_[::5])]
+            big = {"name": "x-y", "via": "Tag", "ctor": {"args": dicts_, "kw": kw_},
+                   "ops": [{"op": "update", "args": [{"d": [[n_, {"t": "str", "s": "u"}] for n_ in names_[10:140:3]]}], "kw": []}, {"op": "setitem", "name": names_[3], "v": {"t": "none"}}],
+                   "children": True, "after_failures": 0}
+            check_case(ctx, big)
+            check_consolidate(ctx, big)
+            ctx.case(big, nontrivial=True)
+            ctx.count("many_attribute_elements")
     # 1. exhaustive grid of call shapes
     cells = [(n, v, slot) for n in GRID_NAMES for v in range(len(GRID_VALUES)) for slot in (0, 1, 2)]
     maxn = 3 if ctx.thorough else 2
